@@ -171,6 +171,18 @@ def set_objective(
         name=model.solver.objective.name,
     )
 
+    # The undo is recorded before anything is changed: a value the solver interface
+    # refuses half way (e.g. a coefficient that is not a number) must not leave a
+    # context with another objective than it found.
+    context = get_context(model)
+    if context:
+
+        def reset():
+            model.solver.objective = reverse_value
+            model.solver.objective.direction = reverse_value.direction
+
+        context(reset)
+
     if isinstance(value, dict):
         if not model.objective.is_Linear:
             raise ValueError(
@@ -214,15 +226,6 @@ def set_objective(
             model.solver.objective += value.expression
     else:
         raise TypeError(f"{value} is not a valid objective for {model.solver}.")
-
-    context = get_context(model)
-    if context:
-
-        def reset():
-            model.solver.objective = reverse_value
-            model.solver.objective.direction = reverse_value.direction
-
-        context(reset)
 
 
 def interface_to_str(interface: Union[str, ModuleType]) -> str:
